@@ -106,19 +106,28 @@ def refute_bounded(obligations, verbose=False, bound=3):
     nparr.BOUND = bound
     try:
         for c in contracts.values():
+            # the bounded instance is generated UNSPLIT (expanded quantifiers would otherwise be split into thousands of obligations,
+            # each carrying the expanded hypotheses); a clause and its split pieces 'clause#k' are matched on the clause name
+            split = getattr(c, 'split_conjunctions', False)
             try:
+                if split:
+                    c.split_conjunctions = False
                 cr2 = generate(c)
             except Exception:
                 continue
+            finally:
+                if split:
+                    c.split_conjunctions = split
             if cr2.status == 'ok':
-                obs2 += [o for o in cr2.obligations if any(o.fn == f and (o.clause == c or o.clause.startswith(c + '#')) for f, c in wanted)]
+                obs2 += [o for o in cr2.obligations if any(o.fn == f and (o.clause == c or o.clause.startswith(c + '#') or (split and o.clause == c.split('#')[0])) for f, c in wanted)]
         discharge.discharge(obs2, timeout_ms=20000, fallbacks=False)
     finally:
         nparr.BOUND = None
     for o2 in obs2:
         if o2.status != 'refuted':
             continue
-        cands = [ob for ob in unk if ob.status == 'unknown' and ob.fn == o2.fn and (ob.clause == o2.clause or o2.clause.startswith(ob.clause + '#'))]
+        cands = [ob for ob in unk if ob.status == 'unknown' and ob.fn == o2.fn and (ob.clause == o2.clause or o2.clause.startswith(ob.clause + '#')
+                                                                                 or (getattr(ob.contract, 'split_conjunctions', False) and ob.clause.split('#')[0] == o2.clause))]
         if not cands:
             continue
         ob = sorted(cands, key=lambda x: x.path != o2.path)[0]
